@@ -440,15 +440,16 @@ def challenges_unchanged(f):
             if mm == 1 and kind in ('L', 'R') and idx >= (n).bit_length() - 1:
                 continue
             base = {'m': mm, 'cap': cc, 'seeded': seeded, 'promises': ['3' if n >= 2 else None] * mm}
-            if d.get('dup') and mm >= 2 and n >= 4:
-                # the finding was made on an aggregate holding the same commitment at two positions: replay on an honest aggregate of that kind
-                # (equal openings at those positions, a different promise at every position), altering the promise of each duplicated position
-                base = dict(base, dup_openings=d['dup'], promises=[str(1 + j) for j in range(mm)], sym_bits=False)
-                for pr in d['dup']:
-                    for pos in pr:
-                        attempts.append((n, base, dict(base, tamper_statement={'op': 'promise', 'j': pos, 'value': 'other'})))
-                continue
             attempts.append((n, base, dict(base, **alt)))
+    if d.get('dup') and m >= 2 and n >= 4 and kind in ('promise', 'promise-position', 'commitment'):
+        # the finding was made on an aggregate holding the same commitment at two positions: replay on an honest aggregate of that kind
+        # (equal openings at those positions, a different promise at every position), altering the promise of each duplicated position
+        base = {'m': m, 'cap': cap, 'seeded': False, 'dup_openings': d['dup'], 'promises': [str(1 + j) for j in range(m)], 'sym_bits': False}
+        dup_attempts = []
+        for pr in d['dup']:
+            for pos in pr:
+                dup_attempts.append((n, base, dict(base, tamper_statement={'op': 'promise', 'j': pos, 'value': 'other'})))
+        attempts = dup_attempts + attempts
     bms, bmi = d.get('batch_ms'), d.get('member', 0)
     for (nn, va, vb) in attempts:
         obs = []
